@@ -95,6 +95,9 @@ fn base_args(cfg: &RunCfg) -> Vec<String> {
     if let Some(b) = cfg.bits {
         a.extend(["--bits".into(), b.to_string()]);
     }
+    if !cfg.build_label.is_empty() {
+        a.extend(["--build-label".into(), cfg.build_label.clone()]);
+    }
     if let Some(s) = cfg.only_stage {
         a.extend(["--only-stage".into(), s.to_string()]);
     }
@@ -201,7 +204,8 @@ fn report(cfg: &RunCfg, stage: &Stage, index: u64, point: Option<usize>, class: 
     plan.expect = Some(Expect { class: class.into(), detail: detail.clone() });
     let mut h = crate::prng::Digest::default();
     h.str(&serde_json::to_string(&plan).unwrap());
-    let path = format!("{}/{}-{}-{:08x}.json", cfg.replays, cfg.property, class, h.finish() as u32);
+    let build = if cfg.build_label.is_empty() { String::new() } else { format!("{}-", cfg.build_label) };
+    let path = format!("{}/{}-{}{}-{:08x}.json", cfg.replays, cfg.property, build, class, h.finish() as u32);
     if std::fs::write(&path, serde_json::to_string_pretty(&plan).unwrap()).is_err() {
         println!("HARNESS-ERROR: cannot write {path}");
         return 2;
